@@ -13,7 +13,7 @@ DICT_ANNS = ['array', 'attributes']
 TOKENS = ['full', 'none', 'container', 'utf8', 'gint', 'GLib.List', 'n', 'user_data', 'caller-allocates', 'foo_bar', 'Foo.Bar', '1', 'x-y.z', 'call',
           'gchar*', 'a']
 KEYS = ['length', 'fixed-size', 'zero-terminated', 'org.gtk.Method', 'k', 'doc.key']
-VALS = ['n', '3', '1', '0', 'some.value', 'v', None, 'name=foo', 'a==b', '=', 'x=']
+VALS = ['n', '3', '1', '0', 'some.value', 'v', None, 'name=foo', 'a==b', '=', 'x=', '']
 
 
 def gen_ann(rng, wild=False):
@@ -148,7 +148,7 @@ def make_block_text(rng, b, layout):
 
 def gen_block(rng, i):
     kind = rng.random()
-    name = 'foo_fn_%d' % i if kind < 0.6 else rng.choice(['FooObj%d:prop-name', 'FooObj%d::sig-name', 'FooRec%d.field', 'FooRec%d', 'FOO_CONST_%d',
+    name = 'foo_fn_%d' % i if kind < 0.6 else rng.choice(['FooObj%d:prop-name', 'FooObj%d::sig-name', 'FooRec%d.field', 'FooRec%d', 'FOO_CONST_%d', 'ACTION_MAX_%d', 'SECTION_SIZE_%d',
                                                           'FooRec%d.x', 'FooObj%d:a', 'FooObj%d::b', 'FooObj%d:a-b']) % i
     def anns(n):
         out, names = [], set()
